@@ -381,7 +381,7 @@ def run_C16(run):
     g = run.tlc("XCacheBatch", dict(cb, Mode="gen"), invariants=("EmitSeq",), name="cache-seqs-gen")
     run.nstage += 1
     trace = os.path.join(run.work, "%02d-cache.trace.ndjson" % run.nstage)
-    p = subprocess.run([run.xvh, "cache", "-in", g["outfile"], "-out", trace], capture_output=True, text=True)
+    p = subprocess.run([run.xvh, "cache", "-in", g["outfile"], "-out", trace, "-long"], capture_output=True, text=True)
     if p.returncode != 0:
         raise ToolingError("cache driver failed: %s%s" % (p.stdout, p.stderr))
     run.log(p.stdout.strip())
